@@ -88,4 +88,33 @@ ASSUME \A c \in MultiClasses : PrintT(<<"MULTI", ToJson(c.id)>>)
 \* classes explored with the wide (Level 2) alphabets in the thorough tier
 WideClasses == {c \in QuickClasses : c.vk = "none" \/ c.id \in {"v01t", "v01u", "v03f", "v04t", "v07f", "v08u", "g02u"}}
 ASSUME \A c \in WideClasses : PrintT(<<"WIDE", ToJson(c.id)>>)
+(* Configuration WORLD: the unroll-variadic setting reaches a mock from other levels than the interface's own entry.
+   Packages of ONE config file: "par" (recursive: true, template-data unroll-variadic: true), its sub-package "sub"
+   that is ALSO listed explicitly, without template-data, and the unrelated package "sib" without template-data;
+   nothing at top level.  The effective setting of an interface is the most specific level that sets it (C08:
+   interface entry, package, recursive ancestor, top level) and nothing else: what a sibling, a descendant or an
+   unrelated package sets never reaches it.  Every variadic class is placed in every package, with an interface-level
+   entry only where the inherited setting is not the class's own; the mock generated there must behave as the class
+   (eff = the class's unroll). *)
+CfgTop == "unset"
+CfgPkgs == { [name |-> "par", parent |-> "",    recursive |-> TRUE,  td |-> "true"],
+             [name |-> "sub", parent |-> "par", recursive |-> FALSE, td |-> "unset"],
+             [name |-> "sib", parent |-> "",    recursive |-> FALSE, td |-> "unset"] }
+CfgPkg(n) == CHOOSE p \in CfgPkgs : p.name = n
+CfgEffective(p, itd) ==
+  IF itd # "unset" THEN itd
+  ELSE IF p.td # "unset" THEN p.td
+  ELSE IF p.parent # "" /\ CfgPkg(p.parent).recursive /\ CfgPkg(p.parent).td # "unset" THEN CfgPkg(p.parent).td
+  ELSE CfgTop
+CfgPlace(c, p) ==
+  LET inh == CfgEffective(p, "unset") IN
+  IF inh = c.unroll THEN {[class |-> c.id, pkg |-> p.name, itd |-> "unset", eff |-> inh]}
+  ELSE IF c.unroll # "unset" THEN {[class |-> c.id, pkg |-> p.name, itd |-> c.unroll, eff |-> CfgEffective(p, c.unroll)]}
+  ELSE {}
+CfgPlaces == UNION {CfgPlace(c, p) : c \in {x \in ThoroughClasses : x.vk # "none"}, p \in CfgPkgs}
+ASSUME \A x \in CfgPlaces : PrintT(<<"CFGPLACE", ToJson(x)>>)
+ASSUME \A p \in CfgPkgs : PrintT(<<"CFGPKG", ToJson(p)>>)
+\* classes whose variadic elements can be slice look-alikes (Mode = "look")
+LookClasses == {c \in ThoroughClasses : HasSliceLikes(c.vk)}
+ASSUME \A c \in LookClasses : PrintT(<<"LOOK", ToJson(c.id)>>)
 =============================================================================
